@@ -47,7 +47,7 @@ PROBES = ["resize_during_cell_size_query", "toggle_then_get_at_unchanged_size", 
           "resize_back_to_earlier_size", "enable_queries_races_with_first_call",
           "swap_toggle_races_with_cell_size_calls", "memoized_falsy_result",
           "process_start_races_with_cell_size_calls", "staged_lock_hand_over_schedule",
-          "cell_size_query_interrupted"]
+          "cell_size_query_interrupted", "many_distinct_memo_arguments"]
 COMPONENTS = {
     "real": ["term_image.utils.get_cell_size / cached / terminal_size_cached / "
              "get_fg_bg_colors / get_terminal_name_version", "term_image.enable/disable_queries, "
@@ -463,6 +463,19 @@ def run_history(ch, ctx, fault):
                 check(got == exp, "name_version_differs_from_fresh_computation",
                       {"got": got, "expected": exp, "queries": model.queries}, "namever")
                 note_get("namever")
+            elif op == "memo" and ch.bool("many", 0.08):
+                # many distinct argument tuples on one memoized function: none of them may be
+                # forgotten before an invalidation
+                n_many = ch.int("n_many", 130, 300)
+                for x in range(n_many):
+                    memo(1000 + x)
+                again = ch.int("again", 0, n_many - 1)
+                got = memo(1000 + again)
+                desc = "memo(1000..%d), then memo(%d) again" % (1000 + n_many - 1, 1000 + again)
+                ctx.probe("many_distinct_memo_arguments")
+                check(calls["memo"].get((1000 + again, 0)) == 1, "memoized_function_recomputed",
+                      {"args": 1000 + again, "body_runs": calls["memo"].get((1000 + again, 0)),
+                       "distinct_arguments": n_many}, "memo")
             elif op == "memo" and ch.bool("falsy", 0.35):
                 a = ch.int("fa", 0, len(FALSY) - 1)
                 got = memo_falsy(a)
@@ -502,6 +515,7 @@ def run_history(ch, ctx, fault):
                 memo._invalidate_cache()
                 memo_falsy._invalidate_cache()
                 calls["falsy"].clear()
+                calls["memo"].clear()
                 tsc._invalidate_terminal_size_cache()
                 memo_expect.clear()
                 tsc_state.update(size=None, value=None)
